@@ -76,6 +76,9 @@ type c02Case struct {
 	// what the handler has read (0 = everything): with a handler that fails
 	// without reading, the client's Send is interrupted in mid-message.
 	Window int `json:"window,omitempty"`
+	// Wrapped: the handler / interceptor returns fmt.Errorf("...: %w", codedErr)
+	// rather than the *connect.Error itself.
+	Wrapped bool `json:"wrapped,omitempty"`
 }
 
 func (k c02Case) key() string {
@@ -85,6 +88,9 @@ func (k c02Case) key() string {
 	}
 	if k.Window > 0 {
 		real += fmt.Sprintf("/window%d", k.Window)
+	}
+	if k.Wrapped {
+		real += "/wrapped"
 	}
 	return fmt.Sprintf("%s/code%d/msg%d/det%d/meta%d/sent%d/icept=%v/cause%d%s", k.Cfg, k.Code, k.Msg, k.Details, k.Meta, k.Sent, k.ByIcept, k.Cause, real)
 }
@@ -158,9 +164,13 @@ func (e errI) WrapStreamingHandler(next connect.StreamingHandlerFunc) connect.St
 
 func c02Check(c *ev.Collector, k c02Case) {
 	want := k.err()
+	var returned error = want
+	if k.Wrapped {
+		returned = fmt.Errorf("outer context: %w", want)
+	}
 	var opts []connect.HandlerOption
 	if k.ByIcept {
-		opts = append(opts, connect.WithInterceptors(errI{want}))
+		opts = append(opts, connect.WithInterceptors(errI{returned}))
 	}
 	var tr *memhttp.Transport
 	h := NewHandler(k.Cfg.Kind, func(ctx context.Context, s HStream) error {
@@ -179,7 +189,7 @@ func c02Check(c *ev.Collector, k c02Case) {
 		if k.ByIcept {
 			return nil
 		}
-		return want
+		return returned
 	}, append(opts, k.Cfg.HandlerOptions()...)...)
 	tr = &memhttp.Transport{Handler: h, Proto: k.Cfg.HTTP, SyncCloseReq: true, ReqWindow: k.Window}
 	var res CallResult
@@ -323,10 +333,10 @@ func c02Cases(thorough bool) []c02Case {
 								for meta := range c02Metas {
 									for _, sent := range sents {
 										for _, ic := range []bool{false, true} {
-											out = append(out, c02Case{cfg, code, msg, det, meta, sent, ic, 0, false, 0})
+											out = append(out, c02Case{cfg, code, msg, det, meta, sent, ic, 0, false, 0, false})
 											if code != 0 && msg < 3 && det < 2 {
 												for cause := 1; cause <= 3; cause++ {
-													out = append(out, c02Case{cfg, code, msg, det, meta, sent, ic, cause, false, 0})
+													out = append(out, c02Case{cfg, code, msg, det, meta, sent, ic, cause, false, 0, false})
 												}
 											}
 										}
@@ -339,13 +349,13 @@ func c02Cases(thorough bool) []c02Case {
 				}
 				for code := 0; code <= 16; code++ {
 					for msg := range c02Messages {
-						out = append(out, c02Case{cfg, code, msg, 1, 1, 0, false, 0, false, 0})
+						out = append(out, c02Case{cfg, code, msg, 1, 1, 0, false, 0, false, 0, false})
 					}
 					// coded errors whose cause chain ends in a context error or io.EOF keep their own code
 					if code != 0 {
 						for cause := 1; cause <= 3; cause++ {
 							for _, sent := range sents {
-								out = append(out, c02Case{cfg, code, 0, 1, 1, sent, false, cause, false, 0})
+								out = append(out, c02Case{cfg, code, 0, 1, 1, sent, false, cause, false, 0, false})
 							}
 						}
 					}
@@ -354,9 +364,25 @@ func c02Cases(thorough bool) []c02Case {
 					for meta := range c02Metas {
 						for _, sent := range sents {
 							for _, ic := range []bool{false, true} {
-								out = append(out, c02Case{cfg, 10, 2, det, meta, sent, ic, 0, false, 0})
+								out = append(out, c02Case{cfg, 10, 2, det, meta, sent, ic, 0, false, 0, false})
 							}
 						}
+					}
+				}
+			}
+		}
+	}
+	// a coded error wrapped with %w by the handler or an interceptor
+	for _, p := range AllProtos {
+		for _, kind := range AllKinds {
+			for _, js := range []bool{false, true} {
+				for _, ic := range []bool{false, true} {
+					for _, sent := range []int{0, 2} {
+						cfg := Cfg{Proto: p, JSON: js, Comp: CompNone, Kind: kind, HTTP: 2}
+						if !cfg.Valid() || (sent > 0 && !kind.ServerStreams()) {
+							continue
+						}
+						out = append(out, c02Case{Cfg: cfg, Code: 5, Msg: 1, Details: 2, Meta: 1, Sent: sent, ByIcept: ic, Wrapped: true})
 					}
 				}
 			}
